@@ -23,15 +23,20 @@ func fdsInto(dir string) int {
 	}
 	n := 0
 	for _, e := range ents {
-		if t, err := os.Readlink("/proc/self/fd/" + e.Name()); err == nil && strings.HasPrefix(t, dir) {
+		if t, err := os.Readlink("/proc/self/fd/" + e.Name()); err == nil && strings.HasPrefix(t, dir+"/") { // files in the directory (not the directory itself: the retention scan lists it)
 			n++
+			if os.Getenv("C05_FDS") != "" {
+				fmt.Fprintln(os.Stderr, "fd", e.Name(), "->", t)
+			}
 		}
 	}
 	return n
 }
 
-// Case: "<kind> <layout 0|1> <policy> <nEvents> <nRaw> <stopTwice 0|1>"
-//  kind: syncfile asyncfile console file rolling rollingsep rollingasync rollingsepasync syncrollingapp
+// Case: "<kind> <layout 0|1> <policy> <nEvents> <nRaw> <stopTwice 0|1> [<spreadMs: the events are spread over this time, crossing rotation boundaries>]"
+//
+//	kind: syncfile asyncfile console file rolling rollingsep rollingasync rollingsepasync syncrollingapp
+//
 // Observation: "<destroy returned 0|1> <ids found in the sinks, in order, comma separated> <fds before destroy> <fds after destroy>"
 func runC05Kinds(cases []string, out *bufio.Writer, _ []string) {
 	log.RegisterTimeRotation("1s", log.TimeRotation{Interval: time.Second})
@@ -45,6 +50,10 @@ func runC05Kinds(cases []string, out *bufio.Writer, _ []string) {
 		kind, lay, pol := f[0], f[1] == "1", f[2]
 		ne, _ := strconv.Atoi(f[3])
 		nr, _ := strconv.Atoi(f[4])
+		spread := 0
+		if len(f) > 6 {
+			spread, _ = strconv.Atoi(f[6])
+		}
 		dir := filepath.Join(base, strconv.Itoa(n))
 		os.Mkdir(dir, 0755)
 		cfg := map[string]string{"logger.lg.tags": "_c05_*", "appender.unused.type": "Rec"}
@@ -96,6 +105,9 @@ func runC05Kinds(cases []string, out *bufio.Writer, _ []string) {
 		go func() {
 			p, v := guard(func() {
 				for i := 0; i < ne; i++ {
+					if spread > 0 && ne > 0 {
+						time.Sleep(time.Duration(spread/ne) * time.Millisecond)
+					}
 					if i%2 == 0 {
 						log.Info(ctx, tag, log.Msg(fmt.Sprintf("<id:%d>", i)))
 					} else {
@@ -119,7 +131,7 @@ func runC05Kinds(cases []string, out *bufio.Writer, _ []string) {
 				guard(func() { log.Destroy() })
 				continue
 			}
-		case <-time.After(5 * time.Second):
+		case <-time.After(5*time.Second + time.Duration(spread)*time.Millisecond):
 			fmt.Fprintln(out, "log-call-blocked - 0 0")
 			continue // this process is beyond repair for further cases; the remaining ones will report refresh errors
 		}
